@@ -113,6 +113,42 @@ HAND["<accumulator::CobsAccumulator<N> as ->::feed"] = ACC_FEED
 HAND["<accumulator::CobsAccumulator<N> as ->::new"] = spec([("- => CobsAccumulator{buf: [0; N], idx: 0}", [[]])], {})
 
 
+# ---- the COBS encoder flavor (C06.EX): each byte is offered to the encoder state first; what it answers decides, and only that:
+#      AddSingle(b): push b.   ModifyFromStartAndSkip((i, v)): patch byte i of the output to v, push a placeholder 0.
+#      ModifyFromStartAndPushAndSkip((i, v, b)): patch, push b, push a placeholder 0.   Errors of the inner flavor come back unchanged.
+def _cobs_push():
+    s0 = "#1 = cobs::EncoderState::push(&self.cobs, arg2)"
+    push = lambda n, x: "#%d = <B as Flavor>::try_push(&self.flav, %s)" % (n, x)
+    pay = lambda v: "pay(#1, '%s', '0')" % v
+    patch = lambda v: "#2 = <B as IndexMut>::index_mut(&self.flav, %s.0); *#2 := %s.1" % (pay(v), pay(v))
+    out = []
+    vt = {"tag(#1)": {"dom": [0, 1, 2]}, "tag(#2)": {"dom": [0, 1]}, "tag(#3)": {"dom": [0, 1]}, "tag(#4)": {"dom": [0, 1]}}
+    a = "AddSingle"
+    out.append(("%s; %s => Result::Err(errval(#2))" % (s0, push(2, pay(a))), [[T("tag(#1)", 0), T("tag(#2)", 1)]]))
+    out.append(("%s; %s => Result::Ok(())" % (s0, push(2, pay(a))), [[T("tag(#1)", 0), T("tag(#2)", 0)]]))
+    m = "ModifyFromStartAndSkip"
+    out.append(("%s; %s; %s => Result::Err(errval(#3))" % (s0, patch(m), push(3, "0")), [[T("tag(#1)", 1), T("tag(#3)", 1)]]))
+    out.append(("%s; %s; %s => Result::Ok(())" % (s0, patch(m), push(3, "0")), [[T("tag(#1)", 1), T("tag(#3)", 0)]]))
+    m = "ModifyFromStartAndPushAndSkip"
+    out.append(("%s; %s; %s => Result::Err(errval(#3))" % (s0, patch(m), push(3, pay(m) + ".2")), [[T("tag(#1)", 2), T("tag(#3)", 1)]]))
+    out.append(("%s; %s; %s; %s => Result::Err(errval(#4))" % (s0, patch(m), push(3, pay(m) + ".2"), push(4, "0")), [[T("tag(#1)", 2), T("tag(#3)", 0), T("tag(#4)", 1)]]))
+    out.append(("%s; %s; %s; %s => Result::Ok(())" % (s0, patch(m), push(3, pay(m) + ".2"), push(4, "0")), [[T("tag(#1)", 2), T("tag(#3)", 0), T("tag(#4)", 0)]]))
+    return spec(out, vt)
+
+
+HAND["<ser::flavors::Cobs<B> as Flavor>::try_push"] = _cobs_push()
+_fin = "#1 = cobs::EncoderState::finalize(self.cobs); #2 = <B as IndexMut>::index_mut(&{self.flav}, #1.0); *#2 := #1.1; #3 = <B as Flavor>::try_push(&{self.flav}, 0)"
+HAND["<ser::flavors::Cobs<B> as Flavor>::finalize"] = spec([
+    (_fin + " => Result::Err(errval(#3))", [[T("tag(#3)", 1)]]),
+    (_fin + "; #4 = <B as Flavor>::finalize(after#3(~)) => Result::Err(errval(#4))", [[T("tag(#3)", 0), T("tag(#4)", 1)]]),
+    (_fin + "; #4 = <B as Flavor>::finalize(after#3(~)) => Result::Ok(okval(#4))", [[T("tag(#3)", 0), T("tag(#4)", 0)]]),
+], {"tag(#3)": {"dom": [0, 1]}, "tag(#4)": {"dom": [0, 1]}})
+HAND["<ser::flavors::Cobs<B> as ->::try_new"] = spec([
+    ("#1 = <B as Flavor>::try_push(&{arg1}, 0) => Result::Err(Error::SerializeBufferFull)", [[T("tag(#1)", 1)]]),
+    ("#1 = <B as Flavor>::try_push(&{arg1}, 0); #2 = <cobs::EncoderState as Default>::default() => Result::Ok(Cobs{cobs: #2, flav: after#1(~)})", [[T("tag(#1)", 0)]]),
+], {"tag(#1)": {"dom": [0, 1]}})
+
+
 def acc_inline(fn, ev):
     """inside the accumulator only its own private helpers are inlined: the segment decoder stays a call"""
     return fn.crate in summ2.LOCAL_CRATES and fn.canon.startswith("postcard::accumulator::")
